@@ -576,6 +576,8 @@ locals {
   neg     = -local.count_x
   paren   = (local.count_x + 1) * 2
   ns      = provider::aws::arn_parse("arn")
+  größe   = "ü"
+  usage   = "${local.größe}-${local.größe}"
 }
 
 provider "aws" {
@@ -819,6 +821,12 @@ lt_l = ["a"]
 lt_m = { a = 1 }
 lt_o = { k = "v", n = 2 }
 lt_t = ["t", false]
+thing "größe" {
+  s = "multi-byte label used as a reference step"
+}
+any_s = thing.größe.s
+mp = { (null) = 1, (true ? null : "x") = 2, "ключ" = 3 }
+any_d = { (null) = thing.a.s, k = [thing.größe.s] }
 thing "a" {
   s = "ß"
   n = 1
